@@ -211,6 +211,11 @@ impl Iterator for Src {
             None
         }
     }
+    // an exact size hint, as ranges, vectors and the library's own ExactSizeGenerator give
+    fn size_hint(&self) -> (usize, Option<usize>) {
+        let left = self.n.saturating_sub(self.next);
+        (left, Some(left))
+    }
 }
 
 impl Drop for Src {
@@ -584,9 +589,101 @@ fn note_stuck(r: &Value) {
     }
 }
 
+/// Several pipes alive at the same time in one process (side by side, or one feeding the other): every pipe on its own
+/// is a sequential map.  No schedule hooks here (their events carry no pipe identity): one record per pipe with the
+/// upstream pulls, the processing calls and what the consumer received.
+fn run_multi(w: usize, n: usize, npipes: usize, nested: bool, seed: u64) -> Vec<Value> {
+    install(None);
+    let ctls: Vec<Arc<Ctl>> = (0..npipes).map(|k| Ctl::new(Mode::Free, w, seed + k as u64, 0.3)).collect();
+    let mk = |ctl: &Arc<Ctl>| -> Pipeline<usize, usize> {
+        let c = ctl.clone();
+        Arc::new(move |x: usize| {
+            c.ev(json!({"e": "Call", "w": 0, "x": x, "k": true}));
+            jitter(&c, 1);
+            x
+        })
+    };
+    let (dtx, drx) = std::sync::mpsc::channel::<()>();
+    let ctls2 = ctls.clone();
+    let pipelines: Vec<Pipeline<usize, usize>> = ctls.iter().map(mk).collect();
+    std::thread::spawn(move || {
+        if nested {
+            // pipe 0 feeds pipe 1 feeds ...: only the outermost is consumed here, the inner ones by the outer workers
+            let src = Src { next: 0, n, ctl: ctls2[0].clone() };
+            let mut it: Box<dyn Iterator<Item = usize> + Send> = Box::new(src.pipe(pipelines[0].clone(), w as u8));
+            for k in 1..npipes {
+                let c = ctls2[k - 1].clone();
+                let inner = it.inspect(move |x| c.ev(json!({"e": "Recv", "w": 0, "x": *x, "k": true})));
+                let ck = ctls2[k].clone();
+                // the upstream of pipe k is the output of pipe k-1: its pulls are logged as pulls of pipe k
+                let mut cnt = 0usize;
+                let up = inner.inspect(move |_| { ck.ev(json!({"e": "Pull", "w": 0, "x": cnt, "k": true})); cnt += 1; });
+                it = Box::new(up.pipe(pipelines[k].clone(), w as u8));
+            }
+            quiet_panics();
+            let last = ctls2[npipes - 1].clone();
+            for x in it {
+                last.ev(json!({"e": "Recv", "w": 0, "x": x, "k": true}));
+            }
+            for c in &ctls2 {
+                c.ev(json!({"e": "End", "w": 0, "x": 0, "k": true}));
+            }
+        } else {
+            let mut pipes: Vec<_> = ctls2.iter().zip(&pipelines).map(|(c, p)| Some(Src { next: 0, n, ctl: c.clone() }.pipe(p.clone(), w as u8))).collect();
+            quiet_panics();
+            let mut live = npipes;
+            while live > 0 {
+                for k in 0..npipes {
+                    if let Some(p) = pipes[k].as_mut() {
+                        match p.next() {
+                            Some(x) => ctls2[k].ev(json!({"e": "Recv", "w": 0, "x": x, "k": true})),
+                            None => {
+                                ctls2[k].ev(json!({"e": "End", "w": 0, "x": 0, "k": true}));
+                                pipes[k] = None;
+                                live -= 1;
+                            }
+                        }
+                    }
+                }
+            }
+        }
+        let _ = dtx.send(());
+    });
+    let finished = drx.recv_timeout(Duration::from_secs(20)).is_ok();
+    // the upstream wrappers are dropped when the last worker of their pipe ends
+    let t0 = Instant::now();
+    while finished && t0.elapsed() < Duration::from_secs(5) && !ctls.iter().all(|c| nested || c.m.lock().unwrap().all_exited) {
+        std::thread::sleep(Duration::from_millis(5));
+    }
+    ctls.iter()
+        .enumerate()
+        .map(|(k, c)| {
+            let mut g = c.m.lock().unwrap();
+            if !finished {
+                g.log.push(json!({"e": "Stuck", "w": 0, "x": 8, "k": false}));
+            }
+            // nested: the inner sources are owned by worker threads of the outer pipes; their exit is not observed here
+            if nested && finished && !g.all_exited {
+                g.log.push(json!({"e": "AllExited", "w": 0, "x": 0, "k": true}));
+            }
+            json!({"st": "ok", "mode": "free", "W": w, "N": n, "cap": w, "ev": g.log.clone(), "acts": [], "sched": [], "seed": seed,
+                   "drained": true, "multi": k, "path": []})
+        })
+        .collect()
+}
+
 pub fn exec(case: &Value) -> Vec<Value> {
     if let Some(r) = stuck_cutoff(case) {
         return r;
+    }
+    if get_str(case, "mode") == "multi" {
+        let mut rs = run_multi(get_u(case, "W"), get_u(case, "N"), get_u(case, "pipes").max(2), get_bool(case, "nested"),
+                               case.get("seed").and_then(|x| x.as_u64()).unwrap_or(0));
+        for r in rs.iter_mut() {
+            note_stuck(r);
+            r["case"] = case.clone();
+        }
+        return rs;
     }
     let w = get_u(case, "W");
     let n = get_u(case, "N");
@@ -653,13 +750,24 @@ pub fn gen(seed: u64, n: usize) -> Vec<Value> {
 /// Child process for the panic clause of C09: builds a real pipe whose processing
 /// function panics at item `fail`, consumes everything.  The library's panic hook
 /// is left in place.  Prints what it saw; the parent judges exit/hang.
-pub fn child_panic(w: usize, n: usize, fail: usize, delay_ms: u64, prior: bool) -> ! {
-    if prior {
+pub fn child_panic(w: usize, n: usize, fail: usize, delay_ms: u64, prior: u64) -> ! {
+    if prior >= 1 {
         // an earlier pipe of the same process runs to completion first (its workers all find their upstream exhausted)
         let c0 = Ctl::new(Mode::Free, w, 2, 0.0);
         let src0 = Src { next: 0, n: 3, ctl: c0.clone() };
         let got0 = src0.pipe(make_pipeline(&c0, None, false), w as u8).count();
         println!("prior stream ended after {got0} items");
+    }
+    if prior >= 2 {
+        // between the two pipes another part of the library takes the process-wide panic hook: train_bpe installs its
+        // own (printing) hook.  The pipe built afterwards must end the process on a panic all the same.
+        let dir = std::env::temp_dir().join(format!("tuverif-hook-{}", std::process::id()));
+        let _ = std::fs::create_dir_all(&dir);
+        let inp = dir.join("c.txt");
+        std::fs::write(&inp, "ab ab ab\n").unwrap();
+        let r = text_utils::tokenization::train_bpe(&[&inp], 320, 63, &dir.join("m.bin"), None, None, 0, false);
+        println!("train_bpe in between: {}", r.is_ok());
+        let _ = std::fs::remove_dir_all(&dir);
     }
     let ctl = Ctl::new(Mode::Free, w, 1, 0.0);
     let src = Src { next: 0, n, ctl: ctl.clone() };
